@@ -359,3 +359,14 @@ def classify(v, case):
     if m == "nonconstant-without-grad" and v.get("blocked_by_constant_view"):
         return "view-of-constant-view-reads-no-grad"
     return m
+
+
+def witness_cases():
+    L = lambda out, shape, data, c: {"k": "leaf", "out": out, "kind": "tensor", "dtype": "float64", "shape": shape, "data": data, "constant": c, "layout": "C"}
+    return [{"lattice": False, "L": "L", "prog": [
+        L("b", [2], [0.3, 2.0], None), L("w", [1, 2], [1.5, -0.5], None),
+        {"k": "call", "out": "c", "fn": "reshape", "a": [["r", "b"], ["t", [2]]], "kw": {"constant": True}, "sp": "mg"},
+        {"k": "call", "out": "v", "fn": "reshape", "a": [["r", "c"], ["t", [1, 2]]], "kw": {"constant": False}, "sp": "mg"},
+        {"k": "call", "out": "m", "fn": "multiply", "a": [["r", "v"], ["r", "w"]], "sp": "mg"},
+        {"k": "call", "out": "L", "fn": "sum", "a": [["r", "m"]], "sp": "mg"},
+        {"k": "backward", "tgt": "L", "seed": None}]}]
